@@ -472,6 +472,10 @@ func (p *Parser) ParseMemberExpression(left ast.Expression) ast.Expression {
 		Computed: false,
 	}
 	p.NextToken()
+	if p.CurrentToken.Type != token.IDENT {
+		p.AddError("identifier expected after '.'")
+		return nil
+	}
 	exp.Property = p.expressionParseFn(p, MEMBER)
 	return exp
 }
